@@ -1,0 +1,38 @@
+// Verification contracts (comment-only, compiled only with the "verif" build tag; read by /verif/govc).
+
+//go:build verif
+// +build verif
+
+package state
+
+// Property C05 — "… never takes more than the configured fraction of its stake and pending withdrawals": state side.
+//
+// staking.takePenalty's bound is proved relative to the structure of the validator record, first of all [stake-is-sum-of-parts]
+//     Stake == SelfStake + Σ Delegations[i].Stake
+// (a Stake below the sum of its parts makes the planned shares add up to MORE than the penalty). The structure is an invariant of the records
+// in the state; this file puts the inductive step of the mutator that edits a delegation under a contract verified FOR C05 (C08 verifies the
+// same step against its own, larger model — core/state/verif_contracts_c08.go [stake-delta], [total-stake], [self-unchanged] — but a C08 clause is not
+// part of C05's check). The other steps: staking.takePenalty$2 [stake-moves-with-part] (the penalty itself), staking.teDeposit / teWithdraw
+// (self stake; outside, see /verif/props/C05.json). The base case and the induction over the history stay assumed.
+
+//@ func (*Validator).GetDelegationFrom props C05
+//@ nobody
+//@ modifies nothing
+//@ ensures result != nil ==> fresh(result) && fresh(result.Stake) && fresh(result.Token) && result.Stake != result.Token && result.Delegator == d
+
+// Stake the touched delegation entry had before the update (0 for a delegator without entry).
+//@ ghost var c05EntryStake: int
+
+// UpdateDelegation(d, val, tokenChanged): the record stored for the validator is a copy of val in which d's entry is replaced; the entry's stake is
+// recomputed from ITS token, the record's total stake moves by exactly the difference between the entry's new and old stake, the self stake stays.
+// Typestate asserts at the two hand-overs (the entry to the copy's list, the copy to the state).
+//@ func (*StateDB).UpdateDelegation props C05
+//@ requires [nonnil] val != nil && val.Token != nil && val.Stake != nil && val.SelfToken != nil && val.SelfStake != nil
+//@ requires [own-amount] tokenChanged != val.Token && tokenChanged != val.Stake && tokenChanged != val.SelfToken && tokenChanged != val.SelfStake
+//@ modifies all, c05EntryStake
+//@ ghost after call (*Validator).GetDelegationFrom: c05EntryStake := if ret == nil then 0 else big(ret.Stake)
+//@ assert before call (*Validator).UpdateDelegationFrom: [entry-replaced-in-the-copy] a0 == newVal && a1 == dfrom && newVal != val && dfrom.Delegator == d
+//@ assert before call (*Validator).UpdateDelegationFrom: [entry-stake-from-its-token] big(dfrom.Stake) == big(newStake)
+//@ assert before call (*Validator).UpdateDelegationFrom: [stake-delta] big(newVal.Stake) - big(val.Stake) == big(dfrom.Stake) - c05EntryStake
+//@ assert before call (*Validator).UpdateDelegationFrom: [self-stake-kept] big(newVal.SelfStake) == big(val.SelfStake)
+//@ assert before call (*StateDB).UpdateValidator: [copy-stored] a1 == newVal && a2 == val
